@@ -278,16 +278,8 @@ def ref_clean(pspec, raw, env):
     if c == "List":
         if not isinstance(raw, (list, tuple)):
             raise Err("ParameterNotValid")
-        out = []
-        unspecified = False
-        for item in raw:
-            try:
-                out.append(ref_clean(pspec["of"], unwrap(item), env))
-            except Unspecified:
-                unspecified = True
-        if unspecified:
-            raise Unspecified()
-        return out
+        # items are cleaned in order: once an item's outcome is unspecified, so is everything after it
+        return [ref_clean(pspec["of"], unwrap(item), env) for item in raw]
     if c == "Result":
         cmd = raw
         if isinstance(raw, str):
